@@ -89,12 +89,14 @@ def oracle(case):
             encs.add(codec)
             kw = dict(mnemonic_case=mc)
             if channel in ("stringio", "string", "stringio-written"):
+                # in-memory channels do no newline translation: CRLF text reaches lasio with its carriage returns
+                mem = text.replace("\n", "\r\n") if nl == "CRLF" else text
                 if channel == "stringio-written":
                     # a StringIO the caller has just filled with write(): its position is at the end
                     arg = io.StringIO()
-                    arg.write(text)
+                    arg.write(mem)
                 else:
-                    arg = io.StringIO(text) if channel == "stringio" else text
+                    arg = io.StringIO(mem) if channel == "stringio" else mem
                 las = attempt(lasio.read, arg, **kw)
             else:
                 path = os.path.join(tmp, "f%d.las" % vi)
@@ -151,6 +153,10 @@ def specs(draw, alphabet):
     secs.append(lastext.section("C", "~Curves", cl))
     if draw(st.booleans()):
         secs.append(lastext.section("P", "~Parameter", [lastext.item("P%d" % i, "", draw(phrase), draw(phrase)) for i in range(draw(st.integers(0, 3)))]))
+    if draw(st.booleans()):
+        # a section of the user's own: it is kept under its title, the same title on every channel
+        secs.append(lastext.section("X", "~Drilling fluid" + draw(st.sampled_from(["", " data", " " + "".join(alphabet[:2])])),
+                                    [lastext.item("MUD%d" % i, "", draw(phrase), draw(phrase)) for i in range(draw(st.integers(0, 2)))]))
     if draw(st.booleans()):
         secs.append(lastext.section("O", "~Other", [{"t": "text", "text": draw(phrase) or "note"} for _ in range(draw(st.integers(1, 2)))]))
     r = draw(st.integers(1, 4))
